@@ -254,21 +254,52 @@ func C13(c *Ctx) {
 			}
 		}
 	}
+	closure := pkgClosure(compile)
+	// errDeep: the error of call (made in fn) is propagated by fn and, if fn is a helper, by every caller up to Compile
+	var errDeep func(fn *ssa.Function, errv ssa.Value, depth int) bool
+	errDeep = func(fn *ssa.Function, errv ssa.Value, depth int) bool {
+		if depth > 4 || !errPropagated(fn, errv) {
+			return false
+		}
+		if fn == compile {
+			return true
+		}
+		sites := callSitesOf(fn, closure)
+		if len(sites) == 0 {
+			return false
+		}
+		for _, s := range sites {
+			cl, isCall := s.(*ssa.Call)
+			if !isCall {
+				return false
+			}
+			var ev ssa.Value = cl
+			if tup, isTup := cl.Type().(*types.Tuple); isTup {
+				ev = callResults(cl)[tup.Len()-1]
+			}
+			if !errDeep(s.Parent(), ev, depth+1) {
+				return false
+			}
+		}
+		return true
+	}
 	for _, f := range fields {
 		ok := false
 		var site ssa.Instruction
-		ssau.Instrs(compile, func(in ssa.Instruction) {
-			cl, isC := in.(*ssa.Call)
-			if !isC || cl.Common().StaticCallee() != asCompile {
-				return
-			}
-			if _, is := isFieldLoad(cl.Common().Args[0], "core", f.typ, f.field); is {
-				site = in
-				if errPropagated(compile, callResults(cl)[1]) {
-					ok = true
+		for _, g := range closure {
+			ssau.Instrs(g, func(in ssa.Instruction) {
+				cl, isC := in.(*ssa.Call)
+				if !isC || cl.Common().StaticCallee() != asCompile {
+					return
 				}
-			}
-		})
+				if _, is := isFieldLoad(cl.Common().Args[0], "core", f.typ, f.field); is {
+					site = in
+					if errDeep(g, callResults(cl)[1], 0) {
+						ok = true
+					}
+				}
+			})
+		}
 		pos := c.P.Pos(compile.Pos())
 		if site != nil {
 			pos = c.pos(site)
@@ -277,36 +308,54 @@ func C13(c *Ctx) {
 	}
 	// the compiled action is stored into the matching target field under the call's success
 	// no iteration skips validation
-	loops := flow.Loops(compile)
 	var typeLoad, guardLoad ssa.Instruction
-	ssau.Instrs(compile, func(in ssa.Instruction) {
-		if u, ok := in.(*ssa.UnOp); ok {
-			if ssau.IsField(u.X, prog.Abs("core"), "Branches", "Type") && typeLoad == nil {
-				typeLoad = in
+	for _, g := range closure {
+		ssau.Instrs(g, func(in ssa.Instruction) {
+			if u, ok := in.(*ssa.UnOp); ok {
+				if ssau.IsField(u.X, prog.Abs("core"), "Branches", "Type") && typeLoad == nil {
+					typeLoad = in
+				}
+				if ssau.IsField(u.X, prog.Abs("core"), "Branch", "GuardSource") && guardLoad == nil {
+					guardLoad = in
+				}
 			}
-			if ssau.IsField(u.X, prog.Abs("core"), "Branch", "GuardSource") && guardLoad == nil {
-				guardLoad = in
-			}
-		}
-	})
+		})
+	}
 	checkNoSkip := func(what string, anchor ssa.Instruction, exempt func(b *ssa.BasicBlock) bool) {
 		if anchor == nil {
 			c.R.Violate("C13-R2", "Compile: "+what, c.P.Pos(compile.Pos()), "Compile does not read "+what)
 			return
 		}
-		L := flow.InnermostLoop(loops, anchor.Block())
-		if L == nil {
-			c.R.Violate("C13-R2", "Compile: "+what+" inside the loop", c.pos(anchor), what+" is not checked per element")
-			return
-		}
 		ok := true
 		var bad []string
-		for _, latch := range L.Latch {
-			if anchor.Block().Dominates(latch) || exempt(latch) {
-				continue
+		inLoop := false
+		// the anchor itself, then (when it lives in a helper) the call sites of the helper, up to Compile
+		cur := []ssa.Instruction{anchor}
+		for depth := 0; depth < 4 && len(cur) > 0; depth++ {
+			var next []ssa.Instruction
+			for _, a := range cur {
+				fn := a.Parent()
+				if L := flow.InnermostLoop(flow.Loops(fn), a.Block()); L != nil {
+					inLoop = true
+					for _, latch := range L.Latch {
+						if a.Block().Dominates(latch) || exempt(latch) {
+							continue
+						}
+						ok = false
+						bad = append(bad, c.pos(latch.Instrs[len(latch.Instrs)-1]))
+					}
+				}
+				if fn != compile {
+					for _, s := range callSitesOf(fn, closure) {
+						next = append(next, s)
+					}
+				}
 			}
-			ok = false
-			bad = append(bad, c.pos(latch.Instrs[len(latch.Instrs)-1]))
+			cur = next
+		}
+		if !inLoop {
+			c.R.Violate("C13-R2", "Compile: "+what+" inside the loop", c.pos(anchor), what+" is not checked per element")
+			return
 		}
 		c.R.Check(ok, "C13-R2", "Compile: no iteration skips "+what, c.pos(anchor), "every way back to the loop head passes the check (or the element has nothing to check)", "an iteration can continue without "+what+" (skipping edge at "+strings.Join(bad, ", ")+")")
 	}
@@ -353,7 +402,7 @@ func C13(c *Ctx) {
 		}
 		// the store is not inside a loop and every loop of Compile precedes it
 		okEnd := !flow.InCycle(cstores[0].Block())
-		for _, l := range loops {
+		for _, l := range flow.Loops(compile) {
 			if !flow.Reachable(l.Header, cstores[0].Block(), nil) {
 				okEnd = false
 			}
